@@ -224,7 +224,7 @@ R.spec_funcs["overridden_header"] = lambda it, k: it.ghost["entries"] is not Non
 BLD_ = "schemathesis.generation.hypothesis.builder:"
 CovCase = Obj("spec:CovCase", media_type=OneOf(NoneT, Str), query=OneOf(NoneT, KeyedDict(Str, Str, sizes=(0, 1))), headers=NoneT,
               cookies=NoneT, path_parameters=NoneT, body=Opq("Body"))
-R.contract(BLD_ + "_iter_coverage_cases", args={"operation": Opq("Any"), "generation_modes": Opq("Any"), "unexpected_methods": Opq("Any")}, returns=ListOf(CovCase, [0, 1, 2]), trusted=True,
+R.contract(BLD_ + "_iter_coverage_cases", args={"operation": Opq("Any"), "generation_modes": Opq("Any"), "unexpected_methods": Opq("Any")}, returns=ListOf(CovCase, [0, 1, 2], widen=False), trusted=True,
            effects={"cases": "list_of_(result)"}, note="C03 contracts: the coverage cases of the operation")
 R.spec_funcs["list_of_"] = lambda it, xs: list(it.iterate_all(xs))
 R.contract(BLD_ + "adjust_urlencoded_payload", args={"case": Opq("Any")}, returns=NoneT, trusted=True, note="C06: form payload encoding")
